@@ -26,6 +26,7 @@ PHY_PRESETS = {
     # short latencies to keep BMC windows small (structure identical, only pipeline depths differ)
     "sdr_fast":  dict(memtype="SDR", nphases=1, rdphase=0, wrphase=0, cl=2, cwl=None, read_latency=2, write_latency=0),
     "ddr3_fast": dict(memtype="DDR3", nphases=4, rdphase=2, wrphase=3, cl=6, cwl=5, read_latency=3, write_latency=1),
+    "ddr3_fast_wr0": dict(memtype="DDR3", nphases=4, rdphase=1, wrphase=0, cl=7, cwl=8, read_latency=3, write_latency=1),   # CWL multiple of nphases
     "ddr3_fast2": dict(memtype="DDR3", nphases=2, rdphase=0, wrphase=1, cl=6, cwl=5, read_latency=4, write_latency=2),
 }
 
